@@ -4,7 +4,7 @@
 From Coq Require Import ZArith List Bool.
 From BV Require Import Lib.PyVal Gen.K_laxsem Model.LaxSem Proofs.LaxSemProofs.
 From BV Require Gen.G_pool_shape Model.Pool Proofs.PoolSup Proofs.PoolSem Gen.G_laxsem_atomic.
-From BV Require Model.PoolSys Proofs.PoolSysProofs Proofs.PoolRefuted.
+From BV Require Model.PoolSys Proofs.PoolSysProofs Proofs.PoolRefuted Proofs.PoolMore.
 Import ListNotations.
 Open Scope Z_scope.
 
@@ -92,6 +92,16 @@ Theorem C10_slots_match_pool_size : forall c tr,
     /\ (LaxSem.pending (Pool.sem s) = 0 -> LaxSem.value (Pool.sem s) <= Pool.nprocs s).
 Proof. exact PoolSem.slots_match_size. Qed.
 Print Assumptions C10_slots_match_pool_size.
+
+(* "given back when its worker is replaced": a supervision pass that does not end in an error
+   gives back exactly one slot per worker it reaped (capped at the bound) *)
+Theorem C10_pass_gives_back_one_slot_per_reaped_worker : forall s s',
+    Pool.do_tick s = (s', Pool.RNone) -> LaxSem.value (Pool.sem s) <= LaxSem.bound (Pool.sem s) ->
+    LaxSem.value (Pool.sem s') = Z.min (LaxSem.bound (Pool.sem s))
+                                       (LaxSem.value (Pool.sem s) + Z.of_nat (length (snd (Pool.join_exited s))))
+    /\ LaxSem.bound (Pool.sem s') = LaxSem.bound (Pool.sem s).
+Proof. exact PoolMore.tick_gives_back_one_slot_per_reaped_worker. Qed.
+Print Assumptions C10_pass_gives_back_one_slot_per_reaped_worker.
 
 (* conservation, for the closed system in which nothing goes wrong (Model/PoolSys.v: client,
    task queue, pipe, workers, result pipe; see Props/C01.v): in every reachable state before
